@@ -16,7 +16,7 @@ THEOREMS = [
     'Pfst.C04.off_arith', 'Pfst.C04.c2b_bridge', 'Pfst.C04.dcol_bytes',
     'Pfst.C04.lead_in_bounds_partial', 'Pfst.C04.lead_only_trivia_partial', 'Pfst.C04.lead_none_spec',
     'Pfst.C04.lead_block_spec', 'Pfst.C04.trail_scan_partial',
-    'Pfst.C04.triviaParams_total_partial', 'Pfst.C04.triviaParams_total_false',
+    'Pfst.C04.triviaParams_total', 'Pfst.Trivia.oneParam_str', 'Pfst.Trivia.getTriviaParams_total',
     'Pfst.Text.getFlat_before', 'Pfst.Text.getFlat_after', 'Pfst.Text.getFlat_container', 'Pfst.Text.getSrc_flat',
     'Pfst.Text.off_putSrc_before', 'Pfst.Text.off_putSrc_after', 'Pfst.Text.off_mono',
     'Pfst.Trivia.scanUp_spec', 'Pfst.Trivia.spaceUp_spec', 'Pfst.Trivia.leadFinish_space', 'Pfst.Trivia.lead_modes',
@@ -58,8 +58,8 @@ LEVEL_TEXT = ('Lean 4 theorems about executable models: _put_src changes exactly
               'lines. Tied to /repo on every run by correspondence (exhaustive on small inputs) and by a tokenize-based '
               'sweep of real edits.')
 LEVEL_NOTE = ('Theorems are about the models; the property for whole structured edits (choice of rectangle by the slice code) '
-              'is checked by the sweep oracle, not proved. triviaParams_total is false on the pinned tree for the option '
-              'value "" (proved as triviaParams_total_false), the partial version excludes it.')
+              'is checked by the sweep oracle, not proved. triviaParams_total holds for the repaired option check (non-empty '
+              'strings anchored with \\Z); on a tree without that repair the correspondence of _check_opt_trivia breaks.')
 TECHNIQUE = 'Lean 4 proof (list induction, omega) + model-implementation correspondence + tokenize oracle sweep'
 
 
@@ -140,8 +140,8 @@ def _corr_trivia(ctx):
         bad = 0
         n = 0
         first = None
-        for off in range(0, len(all_items), 1500):          # bounded memory
-            items = all_items[off:off + 1500]
+        for off in range(0, len(all_items), 400):          # bounded memory
+            items = all_items[off:off + 400]
             impls = pmap(runner, items)
             cases = [{'f': fn, 'lines': lines, 'qs': qs} for lines, qs in items]
             try:
@@ -198,6 +198,20 @@ def _corr_params(ctx):
             unmapped.append(c.get('v', c.get('t')))
     ctx.dist.setdefault('correspondence_cases', {})[name] = len(cases)
     ctx.notes['trivia_values_accepted_by_check_options_but_not_mapped'] = sorted({repr(u) for u in unmapped})
+    for u in unmapped[:1]:
+        # the hypothesis/conclusion of triviaParams_total evaluated on the implementation itself
+        ctx.fail('C04|check_options|trivia|accepted-not-mapped',
+                 f'check_options accepts trivia={u!r} but get_trivia_params maps it to a comments value the trivia functions do '
+                 'not handle (the edit raises KeyError / AssertionError later)', {'trivia_value': u})
+    # a trailing newline is outside the model's string language (`$` vs `\\Z`): evaluate directly
+    from fst.fst_options import _check_opt_trivia
+    for v in ('all\n', 'block+3\n', ('all', 'line\n')):
+        ctx.corr_cases += 1
+        if _check_opt_trivia('trivia', v) is None:
+            ctx.fail('C04|check_options|trivia|accepted-not-mapped',
+                     f'check_options accepts trivia={v!r} (trailing newline) which get_trivia_params does not map to a handled value',
+                     {'trivia_value': list(v) if isinstance(v, tuple) else v, 'tuple': isinstance(v, tuple)})
+            break
     if bad:
         ctx.brk('correspondence', name, f'{bad}/{len(cases)} differ; first: ' + str(ctx.corr_disagreements[-min(bad, 20)])[:1200])
     # the regex \s
@@ -246,7 +260,7 @@ def _run_sweep(ctx, progs, per):
     for lst in res:
         for it in lst:
             n += 1
-            ctx.count({'s': it['src'], 'e': it['edit']}, it['changed'])
+            ctx.count(it.get('key') or {'s': it['src'], 'e': it['edit']}, it['changed'])
             ctx.tally('edit_op', it['op'])
             ctx.tally('edit_field', it['field'])
             ctx.tally('edit_outcome', it['outcome'])
@@ -273,6 +287,12 @@ def search(ctx):
 
 def replay(ctx, data):
     w = data.get('witness')
+    if w and 'trivia_value' in w:
+        v = tuple(w['trivia_value']) if w.get('tuple') or isinstance(w['trivia_value'], list) else w['trivia_value']
+        r = cc.run_trivia_value(('t', list(v), False) if isinstance(v, tuple) else ('v', v, False))
+        if r['ok'] and not r.get('legal'):
+            ctx.fail('C04|check_options|trivia|accepted-not-mapped', f'check_options accepts trivia={v!r} but it is not mapped', w)
+        return
     if not w or 'edit' not in w:
         print('replay file names a broken obligation or a raw splice, not a structured edit:', str(data.get('broken', data.get('what')))[:300])
         if w and 'a' in w:
